@@ -39,6 +39,13 @@ def exclude_lists(m, sc, rnd):
         dirs.setdefault(os.path.dirname(rel(m, f)).split(os.sep)[0], set()).add(f)
     for d, fs in dirs.items():
         out.append(([d + "/"], set(fs)))
+    # everything inside a directory, then one file re-included (only the directory's CONTENTS match the
+    # pattern, not the directory itself, so the negation takes effect - validated against git in C09)
+    for d, fs in dirs.items():
+        direct = sorted(f for f in fs if os.path.dirname(rel(m, f)) == d)
+        if len(direct) == len(fs) and len(fs) >= 1:
+            keep = rnd.choice(direct)
+            out.append(([d + rnd.choice(["/**", "/*"]), "!/" + rel(m, keep)], set(fs) - {keep}))
     hs = {f for f in members if f.endswith(".h")}
     if hs:
         out.append((["*.h"], hs))
